@@ -458,6 +458,33 @@ func ruleInfixWhole(w *World, r *Report) {
 				}
 			}
 			r.Check(complete, rule, pos, w.Name(an), "operands handed to buildParentNode", "all cnt popped entries, filled before the call", why)
+			// (c) an operand count is refused only when it is impossible: below zero or more than the output stack
+			// holds — a call without arguments (`f()`, count 0) builds a node like its prefix form `(f)`
+			cnt := ms.Len
+			for _, b := range an.Blocks {
+				ret := blockReturn(b)
+				if ret == nil || len(ret.Results) == 0 || isNilConst(ret.Results[len(ret.Results)-1]) || !b.Dominates(b) {
+					continue
+				}
+				for _, p := range b.Preds {
+					for _, f := range factsAtEdgeTo(p, b) {
+						bo, okB := f.Cond.(*ssa.BinOp)
+						if !okB || (bo.X != cnt && bo.Y != cnt) {
+							continue
+						}
+						okRefuse := false
+						if bo.X == cnt {
+							if c, okc := constInt(bo.Y); okc && c == 0 && bo.Op == token.LSS && f.Truth {
+								okRefuse = true // cnt < 0
+							}
+							if _, okl := lenArg(bo.Y); okl && bo.Op == token.GTR && f.Truth {
+								okRefuse = true // cnt > len(outputStack)
+							}
+						}
+						r.Check(okRefuse, rule, w.InstrPos(ret), w.Name(an), "operand count refused under "+describe(bo)+fmt.Sprintf(" = %v", f.Truth), "only a negative count or one beyond the output stack is refused", "a possible operand count is refused: infix rejects (or treats differently) a call that the prefix notation accepts")
+					}
+				}
+			}
 		})
 	}
 	if !found {
@@ -476,6 +503,8 @@ func allAnon(fn *ssa.Function) []*ssa.Function {
 }
 
 var infixWholeWitnesses = []Witness{
+	{Name: "infix-refuses-zero-argument-calls", Rule: "R-INFIXWHOLE", Edits: []Edit{
+		{File: "parser.go", Old: "				if cnt < 0 || cnt > len(outputStack) {", New: "				if cnt <= 0 || cnt > len(outputStack) {"}}},
 	{Name: "infix-main-loop-stops-on-deep-stack", Rule: "R-INFIXWHOLE", Edits: []Edit{
 		{File: "parser.go", Old: "	for p.hasNext() {\n		ast, err := p.buildLeafNode()\n		if err != nil {\n			return nil, err\n		}", New: "	for p.hasNext() {\n		if len(operatorStack) > 64 {\n			break\n		}\n		ast, err := p.buildLeafNode()\n		if err != nil {\n			return nil, err\n		}"}}},
 	{Name: "infix-operand-fill-leaves-after-eight", Rule: "R-INFIXWHOLE", Edits: []Edit{
